@@ -102,7 +102,7 @@ def full_traces(run, tier):
             rec.run(("full", N))
             run.evaluations += 1
         tid += 1
-        traces.append({"tid": tid, "cfg": {"L": L, "S": S, "st": st},
+        traces.append({"tid": tid, "cfg": {"L": L, "S": S, "st": stubs.spec_style(st)},
                        "events": [{k: e[k] for k in ("a", "err", "fr", "st", "n")} for e in rec.events]})
         meta[tid] = (L, S, st)
     rejected, tr = common.validate_traces_parallel("TraceStftDef", "TraceStftDef.cfg", traces, shards=8)
@@ -144,7 +144,7 @@ def value_level(run, tier, nprng, walk, torch_too=False, prop="C02"):
         banks = bank_matrix(tier, rate)
         for bi, (bname, mk) in enumerate(banks):
             for (L, S) in LS:
-                for st in stubs.STYLES:
+                for st in stubs.ALL_STYLES:
                     for pad in (False, True):
                         if tier == "quick" and (bi + L + len(st) + pad) % 3:
                             continue  # quick: a third of the matrix, deterministic
@@ -156,7 +156,7 @@ def value_level(run, tier, nprng, walk, torch_too=False, prop="C02"):
         Ns = sorted({L // 2 + 1, L, L + S, 2 * L + 1, 3 * L + 3 if rate == stubs.RATE else 2 * L + S + 3, L // 2})
         for N in Ns:
             plan.append((rate, bname, mk, L, S, st, pad, N))
-            frames_cases.append({"L": L, "S": S, "st": st, "N": N})
+            frames_cases.append({"L": L, "S": S, "st": stubs.spec_style(st), "N": N})
     uniq = {}
     for cse in frames_cases:
         uniq[(cse["L"], cse["S"], cse["st"], cse["N"])] = cse
@@ -176,7 +176,7 @@ def value_level(run, tier, nprng, walk, torch_too=False, prop="C02"):
         log, power, energy = bool(k & 1), bool(k & 2), bool(k & 4)
         ms = 1000.0 / rate
         c = compute.STFTFrameComputer(bank, frame_length_ms=L * ms + ms / 4, frame_shift_ms=S * ms + ms / 4,
-                                      frame_style="causal" if st == "causal" else "centered", kaldi_shift=(st == "kaldi"),
+                                      frame_style="causal" if st in ("causal", "causal+k") else "centered", kaldi_shift=(st in ("kaldi", "causal+k")),
                                       pad_to_nearest_power_of_two=pad, window_function=win,
                                       use_log=log, use_power=power, include_energy=energy)
         if (c.frame_length, c.frame_shift) != (L, S):
@@ -196,7 +196,7 @@ def value_level(run, tier, nprng, walk, torch_too=False, prop="C02"):
             continue
         compared += 1
         x = nprng.randn(N) * (3.0, 0.01, 1e-4, 0.0, 1e-7)[(k // 8) % 5]  # loud, quiet, below the log floor, digital silence
-        row = rowidx[(L, S, st, N)]
+        row = rowidx[(L, S, stubs.spec_style(st), N)]
         exp, borderline = V.expected_matrix(x, row, window, D, filts, bank.is_real, power, log, energy, walk)
         outs = [("numpy", c.compute_full(x))]
         if torch_too and (N >= L or N < L // 2 + 1):  # C14 is stated for N >= frame_length and for N < frame_length//2+1
